@@ -50,9 +50,14 @@ ProbeF(s) == IF s.up THEN [s EXCEPT !.answered = @ + 1, !.probes = @ + 1]
 PendF(s) == IF s.up THEN [s EXCEPT !.pending = @ + 1, !.pends = @ + 1]
             ELSE [s EXCEPT !.hung = @ + 1, !.pends = @ + 1]
 
+(* orderly EOF from the server: the transport is closed at once.  A transport ERROR (here: while writing) ends the connection
+   as well, but AS IMPLEMENTED the client closes that transport only at the next reconnect() / close() *)
 CutF(s) == IF s.up THEN [s EXCEPT !.up = FALSE, !.topen = FALSE, !.closeCbs = @ + 1, !.tclosed = @ + 1, !.cuts = @ + 1,
                                   !.answered = @ + s.pending, !.pending = 0]
            ELSE [s EXCEPT !.cuts = @ + 1]
+CutErrF(s) == IF s.up THEN [s EXCEPT !.up = FALSE, !.closeCbs = @ + 1, !.cuts = @ + 1,
+                                     !.answered = @ + s.pending, !.pending = 0]
+              ELSE [s EXCEPT !.cuts = @ + 1]
 
 ReconnF(s) == IF s.appClosed THEN [s EXCEPT !.reconnects = @ + 1]
               ELSE [s EXCEPT !.gen = @ + 1, !.up = TRUE, !.topen = TRUE,
@@ -69,11 +74,12 @@ CloseF(s) == IF s.appClosed THEN s
 Probe == k.probes < MaxProbes /\ k' = ProbeF(k)
 Pend == k.pends < MaxPends /\ k' = PendF(k)
 Cut == k.cuts < MaxCuts /\ k.up /\ k' = CutF(k)
+CutErr == k.cuts < MaxCuts /\ k.up /\ k' = CutErrF(k)
 Reconnect == k.reconnects < MaxReconnects /\ k' = ReconnF(k)
 Close == ~k.appClosed /\ k' = CloseF(k)
 Tick == k.ticks < MaxTicks /\ k' = [k EXCEPT !.ticks = @ + 1]        \* a keep-alive period passes
 
-F(a, s) == CASE a = "probe" -> ProbeF(s) [] a = "pend" -> PendF(s) [] a = "cut" -> CutF(s) [] a = "close" -> CloseF(s)
+F(a, s) == CASE a = "probe" -> ProbeF(s) [] a = "pend" -> PendF(s) [] a = "cut" -> CutF(s) [] a = "cuterr" -> CutErrF(s) [] a = "close" -> CloseF(s)
              [] a = "reconnect" -> ReconnF(s)
 
 Race(f, a, j) ==
@@ -82,15 +88,15 @@ Race(f, a, j) ==
     /\ (f = "reconnect" /\ a = "reconnect" => k.reconnects + 1 < MaxReconnects)
     /\ (a = "probe" => k.probes < MaxProbes)
     /\ (a = "pend" => k.pends < MaxPends)
-    /\ (a = "cut" => k.cuts < MaxCuts /\ k.up)
+    /\ (a \in {"cut", "cuterr"} => k.cuts < MaxCuts /\ k.up)
     /\ LET r == [k EXCEPT !.races = @ + 1]
            first == F(f, F(a, r))                   \* the racing call took effect before f did
            second == F(a, F(f, r))                  \* ... or after it
            absorbed == [ReconnF(r) EXCEPT !.reconnects = @ + 1]      \* a second reconnect() absorbed by the one under way
        IN k' \in (IF f = "reconnect" /\ a = "reconnect" THEN {second, absorbed} ELSE {first, second})
 
-Next == Probe \/ Pend \/ Cut \/ Reconnect \/ Close \/ Tick
-        \/ \E f \in Firsts, a \in {"probe", "pend", "cut", "close", "reconnect"}, j \in Js : Race(f, a, j)
+Next == Probe \/ Pend \/ Cut \/ CutErr \/ Reconnect \/ Close \/ Tick
+        \/ \E f \in Firsts, a \in {"probe", "pend", "cut", "cuterr", "close", "reconnect"}, j \in Js : Race(f, a, j)
 Spec == Init /\ [][Next]_vars
 
 ----------------------------------------------------------------------------
@@ -98,6 +104,8 @@ Spec == Init /\ [][Next]_vars
 CloseOncePerConnection == k.closeCbs <= k.gen /\ (~k.up => k.closeCbs = k.gen) /\ (k.up => k.closeCbs = k.gen - 1)
 (* C17: the old transport is closed before the next one is taken; nothing pending survives a reconnect *)
 OldTransportsClosed == k.tclosed >= k.gen - 1 /\ (k.topen => k.tclosed = k.gen - 1) /\ (~k.topen => k.tclosed = k.gen)
+(* C11: once close() has returned every transport the client took is closed *)
+AllClosedAfterClose == k.appClosed => k.tclosed = k.gen
 (* C11 / C17: a request waits only on a connection that is dead and has not been replaced or closed yet ... *)
 WaitsOnlyOnDeadConnection == k.hung > 0 => ~k.up
 (* ... AS IMPLEMENTED also for ever after close(): kept visible *)
